@@ -123,6 +123,9 @@ def _worker(pid, tier, task_q, res_q, chunk, qtimeout):
         res_q.put(dict(fatal=traceback.format_exc()))
 
 
+_REPO = os.path.join(os.path.realpath(os.environ.get('VERIF_REPO', '/repo')), '')
+
+
 class _Profiler:
     def __init__(self):
         self.seen = set()
@@ -131,8 +134,8 @@ class _Profiler:
         if event == 'call':
             co = frame.f_code
             fn = co.co_filename
-            if fn.startswith('/repo/'):
-                self.seen.add(f'{fn[6:]}:{co.co_qualname}')
+            if fn.startswith(_REPO):
+                self.seen.add(f'{fn[len(_REPO):]}:{co.co_qualname}')
 
     def start(self):
         sys.setprofile(self._cb)
@@ -466,6 +469,10 @@ def main(argv=None):
             return EXIT_VIOLATION
         print('not reproduced')
         return EXIT_OK
+    import thermosteam
+    if not os.path.realpath(thermosteam.__file__).startswith(_REPO):
+        print(f'HARNESS-ERROR: thermosteam imported from {thermosteam.__file__}, not from the tree under test {_REPO}')
+        return EXIT_HARNESS
     code, lines, ev = check(a.property.upper(), a.tier, a.jobs, seed, a.group, a.verbose)
     for ln in lines:
         print(ln)
